@@ -271,6 +271,9 @@ func compileExprLHS(ctx *blockCtx, expr ast.Expr) {
 		compileSelectorExprLHS(ctx, v)
 	case *ast.StarExpr:
 		compileStarExprLHS(ctx, v)
+	case *ast.ParenExpr: // (x) = …, (*p)++ : parentheses around an assignable operand
+		compileExprLHS(ctx, v.X)
+		return
 	default:
 		panic(ctx.newCodeErrorf(v.Pos(), "compileExprLHS failed: unknown - %T", expr))
 	}
